@@ -71,6 +71,7 @@ type Exec struct {
 	knownTerms   map[*Term]*Term
 	feasCache    map[*Term]bool
 	abstractFns  map[string]bool
+	gobReg       map[*Term]gobEntry
 	world        *World
 	symLoopBound int
 	maxSymUnroll int
